@@ -506,6 +506,102 @@ fn enum_seqs(alpha: &[u8], minlen: usize, maxlen: usize) -> Vec<Vec<u8>> {
     out
 }
 
+
+/// seed C16-7: the boundary of the banded clause, `bandwidth == max(#nodes, |query|)` ("at least as large as both
+/// lengths" holds with equality), on the fresh linear graph, score-only.  Per query three steps: `g` with the boundary
+/// bandwidth (banded score against the global one), `g` with one more, `b` with the boundary bandwidth (operations
+/// and score of `global_banded` itself).  At most 15 steps per line.
+fn boundary_lines(head: &str, r: &[u8], queries: &[Vec<u8>], out: &mut Vec<String>) {
+    for chunk in queries.chunks(5) {
+        let mut steps = vec![];
+        for q in chunk {
+            let bw = r.len().max(q.len());
+            steps.push(step('g', q, bw, false));
+            steps.push(step('g', q, bw + 1, false));
+            steps.push(step('b', q, bw, false));
+        }
+        out.push(format!("{} {} {}", head, hex(r), steps.join("/")));
+    }
+}
+
+/// scoring schemes of the boundary block over the alphabet {A, C}: match much larger than mismatch / gap (a single
+/// match outweighs several gaps, so optimal alignments start or end with long gap runs and leave the diagonal),
+/// the textbook unit scheme, an asymmetric table, gap 0, and gap much larger than match
+const BOUNDARY_SCHEMES: [&str; 8] = [
+    "-1:-858993459:-858993459:-858993459:-858993459 4143 3,-1,-1,3",
+    "-1:-858993459:-858993459:-858993459:-858993459 4143 2,-2,-2,2",
+    "-1:-858993459:-858993459:-858993459:-858993459 4143 10,-3,-3,10",
+    "-2:-858993459:-858993459:-858993459:-858993459 4143 5,-4,-4,5",
+    "-1:-858993459:-858993459:-858993459:-858993459 4143 1,-1,-1,1",
+    "-2:-858993459:-858993459:-858993459:-858993459 4143 2,0,-3,1",
+    "0:-858993459:-858993459:-858993459:-858993459 4143 1,-1,-2,0",
+    "-3:-858993459:-858993459:-858993459:-858993459 4143 1,-1,-1,1",
+];
+
+fn gen_boundary(tier: &str, rng: &mut Rng, out: &mut Vec<String>) {
+    let thorough = tier == "thorough";
+    // exhaustive: every reference and every query over {A, C} of length 1..4 (30 x 30 pairs) under every scheme
+    let small = enum_seqs(b"AC", 1, 4);
+    // sample of lengths 5..6 (96 sequences): per scheme and reference a fresh sample of queries of length 1..6
+    let long = enum_seqs(b"AC", 5, 6);
+    let all = enum_seqs(b"AC", 1, 6);
+    for head in BOUNDARY_SCHEMES {
+        for r in &small {
+            boundary_lines(head, r, &small, out);
+        }
+        let nref = if thorough { long.len() } else { 12 };
+        for i in 0..nref {
+            let r = if thorough { long[i].clone() } else { rng.pick(&long).clone() };
+            let nq = if thorough { 18 } else { 10 };
+            let mut qs: Vec<Vec<u8>> = (0..nq).map(|_| rng.pick(&all).clone()).collect();
+            // the reversed / rotated reference: the optimum then starts with a gap run and ends with one
+            let mut rev = r.clone();
+            rev.reverse();
+            qs.push(rev);
+            let mut rot = r.clone();
+            rot.rotate_left(1);
+            qs.push(rot);
+            boundary_lines(head, &r, &qs, out);
+        }
+    }
+    // random larger pairs over 2..4 symbols at exactly bandwidth = max(m, n): one match score in {1,2,3,5,8}, mismatch in
+    // {-1,-2,-4}, gap in {-1,-2,-3}; queries: rotations, reversal, pieces, mutated copies, unrelated
+    let cases = if thorough { 5_000 } else { 500 };
+    for _ in 0..cases {
+        let alpha: Vec<u8> = b"ACGT"[..2 + rng.below(3)].to_vec();
+        let k = alpha.len();
+        let m = *rng.pick(&[1, 2, 3, 3, 5, 8]);
+        let x = *rng.pick(&[-1, -2, -4]);
+        let table: Vec<i32> = (0..k * k).map(|i| if i / k == i % k { m } else { x }).collect();
+        let sch = Scheme { gap: *rng.pick(&[-1, -1, -2, -3]), clips: [MIN_SCORE; 4], alpha: alpha.clone(), table };
+        let len = if rng.chance(2, 3) { 1 + rng.below(10) } else { 5 + rng.below(21) };
+        let r = rng.seq(&alpha, len);
+        let mut qs: Vec<Vec<u8>> = vec![];
+        for _ in 0..5 {
+            let q = match rng.below(8) {
+                0 => {
+                    let mut q = r.clone();
+                    let by = rng.below(r.len());
+                    q.rotate_left(by);
+                    q
+                }
+                1 => {
+                    let mut q = r.clone();
+                    q.reverse();
+                    q
+                }
+                2 | 3 => {
+                    let n = 1 + rng.below(if len <= 10 { 10 } else { 25 });
+                    rng.seq(&alpha, n)
+                }
+                _ => query(rng, &alpha, &r, &[]),
+            };
+            qs.push(q);
+        }
+        boundary_lines(&sch.head(), &r, &qs, out);
+    }
+}
+
 pub fn gen(tier: &str, rng: &mut Rng, out: &mut Vec<String>) {
     let n = if tier == "thorough" { 150_000 } else { 5_000 };
     for i in 0..n {
@@ -520,6 +616,8 @@ pub fn gen(tier: &str, rng: &mut Rng, out: &mut Vec<String>) {
     for _ in 0..nedge {
         edge_case(rng, out);
     }
+    // the boundary bandwidth == max(m, n) of the banded clause (seed C16-7), quick and thorough
+    gen_boundary(tier, rng, out);
     if tier == "thorough" {
         // exhaustive small scope: every reference and query over {A,C} of length 1..4 (30 x 30), three schemes,
         // global + full band on the fresh graph, then the query added and the reference re-aligned
